@@ -286,7 +286,8 @@ class Scenario:
                     elif op[0] == 'close':
                         ses.close(); outcomes[key] = ('closed',)
                     elif op[0] == 'take':
-                        n = ses.take_notification(op[1], 5 if op[1] else None)
+                        from ncclient.manager import Manager          # the documented entry point (wrapper over the session's)
+                        n = Manager(ses, dh, timeout=5).take_notification(op[1], 5 if op[1] else None)
                         S.effect('took', n is None, len(ses._notification_q.d))     # what was queued when it returned
                         outcomes[key] = ('took', None if n is None else n.notification_xml)
             return body
